@@ -82,7 +82,8 @@ def _open(case, ctx, weights=None):
     content and other weights at the root); returns its URI."""
     n = case["n"]
     table = case.get("table") or gen.simple_table(n)
-    uri = gen.place(ctx.path(), table, case["px"], case["mode"], at=case.get("at"), scale=case.get("scale", 1))
+    uri = gen.place(ctx.path(), table, case["px"], case["mode"], at=case.get("at"), scale=case.get("scale", 1),
+                    prior=case.get("prior", False))
     if weights:
         import h5py
         fp, grp = gen.split_uri(uri)
